@@ -68,6 +68,21 @@ def build(con, values, ctx, path=(), rec=None, base=0):
         txt = "" if v is None else (v if isinstance(v, str) else str(v))  # a code given as a number for a field declared as text
         assert len(txt) <= n, (path, txt, n)
         return txt.ljust(n).encode(), txt
+    if type(con).__name__ == "StringEncoded":
+        fs = con.subcon
+        while type(fs).__name__ != "FixedSized":
+            fs = fs.subcon
+        n = fs.length(ctx) if callable(fs.length) else fs.length
+        if rec is not None:
+            rec.append((path, base, n))
+        txt = "" if v is None else str(v)
+        return txt.ljust(n)[:n].encode(), txt
+    if isinstance(con, D.AsciiComplex) and not isinstance(con.subcon, c.Struct):
+        # a complex field declared over one text field: write the two halves as text
+        b, _ = build(con.subcon, None, ctx, path, rec, base)
+        half = len(b) // 2
+        re_, im = (v.real, v.imag) if v is not None else (0.0, 0.0)
+        return (f"{re_:{half}.7E}"[:half].rjust(half) + f"{im:{half}.7E}"[:half].rjust(half)).encode(), complex(re_, im)
     if isinstance(con, D.AsciiComplex):
         st = con.subcon
         re_, im = (v.real, v.imag) if v is not None else (0.0, 0.0)
